@@ -1,4 +1,5 @@
 SPECIFICATION Spec2
 CONSTANTS
+  AssignRule = "strict"
   CfgSpace <- SmallQuick
 INVARIANT Factorises
